@@ -27,6 +27,7 @@ type Ctx struct {
 	fnKey     map[*ssa.Function]string
 	contracts map[string]*ContractFile // by package path
 	escFields map[string]bool          // "S.sortname#idx" fields whose address escapes
+	mutGlobals map[string]bool        // globals stored to outside package initialisers
 	writeSets map[*ssa.Function]*WriteSet
 	wsBusy    map[*ssa.Function]bool
 	mirrorUsed []string
@@ -74,7 +75,7 @@ func loadProgram(repo string, patterns []string, overlay map[string][]byte) (*Ct
 	prog.Build()
 	c := &Ctx{repo: repo, prog: prog, fset: prog.Fset, pkgs: map[string]*ssa.Package{}, ppkgs: map[string]*packages.Package{},
 		funcs: map[string]*ssa.Function{}, fnKey: map[*ssa.Function]string{}, contracts: map[string]*ContractFile{},
-		escFields: map[string]bool{}, writeSets: map[*ssa.Function]*WriteSet{}, wsBusy: map[*ssa.Function]bool{}}
+		escFields: map[string]bool{}, mutGlobals: map[string]bool{}, writeSets: map[*ssa.Function]*WriteSet{}, wsBusy: map[*ssa.Function]bool{}}
 	for i, sp := range spkgs {
 		if sp == nil {
 			continue
@@ -233,6 +234,11 @@ func (c *Ctx) scanEscFields() {
 	for _, fn := range c.funcs {
 		for _, b := range fn.Blocks {
 			for _, ins := range b.Instrs {
+				if s, ok := ins.(*ssa.Store); ok {
+					if g, ok := s.Addr.(*ssa.Global); ok {
+						c.mutGlobals[g.Pkg.Pkg.Name()+"."+g.Name()] = true
+					}
+				}
 				fa, ok := ins.(*ssa.FieldAddr)
 				if !ok {
 					continue
